@@ -4,7 +4,7 @@ from . import ops, fresh
 EXPLANATION = (
     "R1 primitive table: utils.binary_and/or/xor return (x mod 2^n) OP (y mod 2^n) with OP the operator of their name on every path (no early return of an "
     "unreduced operand); binary_invert normalises to 2^n - 1 - x; R2 method siblings __and__/__or__/__xor__/__invert__: on every path with an Fxp operand the "
-    "word-length equality check precedes everything and its failing branch raises; the primitive of the same name is called with n_word=self.n_word on self.val; the "
+    "word-length equality check precedes everything and its failing branch raises; the primitive of the same name is called with n_word=self.n_word on self.val and on the other word's codes (re-typed at most to an integer carrier, never to a value type); the "
     "result is re-signed with twos_complement_repr(nbits=self.n_word) iff self.signed; the pattern is stored raw into self.deepcopy(); R3 twos_complement_repr maps "
     "patterns in [0,2^n) by the sign-bit test (bit n-1, boundary 100..0 included) to v - 2^n; reflected/in-place aliases only onto the same commutative operator. "
     "Residual: iteration over array operands by @array_support (outside the quantifier's scalar patterns); Python's & | ^ on ints (lemma).")
